@@ -6,6 +6,7 @@ import (
 	"fmt"
 	"math"
 	"math/bits"
+	"sort"
 	"strconv"
 	"strings"
 )
@@ -129,10 +130,12 @@ type TermTable struct {
 	UFs  map[string]Sort // name -> result sort
 	UFOrder []string
 	Apps []*Term // every OApp term created (for model extraction)
+	Subst map[*Term]*Term // leaves (UF applications) known to equal a constant on this path
+	noNorm bool
 }
 
 func NewTermTable() *TermTable {
-	return &TermTable{tab: map[string]*Term{}, UFs: map[string]Sort{}}
+	return &TermTable{tab: map[string]*Term{}, UFs: map[string]Sort{}, Subst: map[*Term]*Term{}}
 }
 
 func mask(w int) uint64 {
@@ -235,7 +238,11 @@ func (tt *TermTable) App(name string, res Sort, idx *Term) *Term {
 		tt.UFs[name] = res
 		tt.UFOrder = append(tt.UFOrder, name)
 	}
-	return tt.intern(&Term{Op: OApp, S: res, Name: name, Args: []*Term{idx}})
+	t := tt.intern(&Term{Op: OApp, S: res, Name: name, Args: []*Term{idx}})
+	if c, ok := tt.Subst[t]; ok {
+		return c
+	}
+	return t
 }
 
 func (tt *TermTable) mk(op Op, s Sort, args ...*Term) *Term {
@@ -315,6 +322,11 @@ func (tt *TermTable) Bin(op Op, a, b *Term) *Term {
 	if a.IsConst() && b.IsConst() {
 		if v, ok := foldBV(op, s.W, a.C, b.C); ok {
 			return tt.Const(s, v)
+		}
+	}
+	if (op == OAdd || op == OSub) && s.K == SBV && !tt.noNorm {
+		if r := tt.normSum(op, a, b); r != nil {
+			return r
 		}
 	}
 	// canonicalise commutative: const on the right
@@ -1135,3 +1147,92 @@ func tobits(s Sort, f float64) uint64 {
 }
 
 var _ = bits.Len64
+
+// normSum canonicalises sums and differences of bit-vector terms: (x + (y + 3)) - y  ==>  x + 3.
+// Atoms are sorted by ID so that syntactically different association orders of the same sum
+// become the same term (which lets index comparisons such as base+off+j == base+(off+j) fold).
+func (tt *TermTable) normSum(op Op, a, b *Term) *Term {
+	var pos, neg []*Term
+	var c uint64
+	n := 0
+	var walk func(t *Term, sign bool)
+	walk = func(t *Term, sign bool) {
+		n++
+		if n > 64 {
+			return
+		}
+		switch {
+		case t.IsConst():
+			if sign {
+				c += t.C
+			} else {
+				c -= t.C
+			}
+		case t.Op == OAdd:
+			walk(t.Args[0], sign)
+			walk(t.Args[1], sign)
+		case t.Op == OSub:
+			walk(t.Args[0], sign)
+			walk(t.Args[1], !sign)
+		case t.Op == ONeg:
+			walk(t.Args[0], !sign)
+		default:
+			if sign {
+				pos = append(pos, t)
+			} else {
+				neg = append(neg, t)
+			}
+		}
+	}
+	walk(a, true)
+	walk(b, op == OAdd)
+	if n > 64 {
+		return nil
+	}
+	// cancel
+	for i := 0; i < len(pos); i++ {
+		for j := 0; j < len(neg); j++ {
+			if pos[i] != nil && neg[j] != nil && pos[i] == neg[j] {
+				pos[i], neg[j] = nil, nil
+				break
+			}
+		}
+	}
+	compact := func(l []*Term) []*Term {
+		o := l[:0]
+		for _, t := range l {
+			if t != nil {
+				o = append(o, t)
+			}
+		}
+		sort.Slice(o, func(i, j int) bool { return o[i].ID < o[j].ID })
+		return o
+	}
+	pos, neg = compact(pos), compact(neg)
+	s := a.S
+	tt.noNorm = true
+	defer func() { tt.noNorm = false }()
+	var r *Term
+	for _, t := range pos {
+		if r == nil {
+			r = t
+		} else {
+			r = tt.mk(OAdd, s, r, t)
+		}
+	}
+	for _, t := range neg {
+		if r == nil {
+			r = tt.Un(ONeg, t)
+		} else {
+			r = tt.mk(OSub, s, r, t)
+		}
+	}
+	cc := tt.Const(s, c)
+	if r == nil {
+		return cc
+	}
+	if cc.C == 0 {
+		return r
+	}
+	return tt.mk(OAdd, s, r, cc)
+}
